@@ -28,6 +28,14 @@ def toktable(repo):
             res.add(f"doc|row{i}|{w[1]}", f"token pattern #{i} differs: tokenizer has {w[0]!r} -> {w[1]}, "
                     f"doc/grammar.md has {d[0]!r} -> {d[1]} (pattern order decides ties)", G.GRAMMAR_MD)
             break
+    # the documented table shows the pattern text only: a compile flag changes what the pattern matches without
+    # changing a character of the documentation (`\\s+` with re.ASCII no longer skips NBSP or U+2028)
+    for pat, sym, line in regs:
+        fl = G.REGEX_FLAGS.get((repo.root, line))
+        if fl:
+            res.instances += 1
+            res.add(f"{TOK}|regex|{sym or 'gap'}|flags", f"token pattern {pat!r} ({sym or 'no symbol'}) is compiled with `{fl}`: the pattern no longer "
+                    "means what the documented table (pattern text only) says", TOK, line)
     # terminals <-> tokenizer symbols
     g = G.ir_grammar(repo)
     lhs = {l for l, _ in g["productions"]}
